@@ -407,4 +407,57 @@ theorem matchDNS_self {k : Bytes} (h1 : k ≠ []) (h2 : k ≠ [dot]) : matchDNS 
     · intro e; exact h1 (toLower_eq_nil.mp e)
     · intro e; exact h2 ((toLower_eq_single (fun _ => toLowerB_eq_dot)).mp e)
 
+/-! ### validHostname without the wildcard clause -/
+
+/-- Not empty, not `*`, every dot-separated label valid. -/
+def validParts (g : Bytes) : Bool := !g.isEmpty && g != [star] && (split g dot).all validLabel
+
+theorem validHostname_input_eq (h : Bytes) : validHostname h false = validParts (trimDot h) := by
+  unfold validHostname validParts
+  simp only [Bool.false_eq_true, if_false, Bool.false_and, Bool.false_or]
+  cases he : (trimDot h).isEmpty
+  · cases hs : (trimDot h == [star])
+    · have hs2 : trimDot h ≠ [star] := by simpa using hs
+      cases hp : split (trimDot h) dot with
+      | nil => simp [hs2]
+      | cons p ps => simp [hs2]
+    · have hs2 : trimDot h = [star] := by simpa using hs
+      simp [hs2]
+  · simp
+
+theorem validHostname_pattern_eq {k : Bytes} (hstar : star ∉ k) : validHostname k true = validParts k := by
+  unfold validHostname validParts
+  simp only [if_true, Bool.true_and]
+  cases he : k.isEmpty
+  · cases hs : (k == [star])
+    · cases hp : split k dot with
+      | nil => exact absurd hp (split_ne_nil _ _)
+      | cons p ps =>
+        have : (p == [star]) = false := by
+          apply Bool.eq_false_iff.mpr
+          intro e
+          have e' : p = [star] := by simpa using e
+          exact hstar (mem_of_mem_split (s := k) (sep := dot) (p := p) (by rw [hp]; simp) (by rw [e']; simp))
+        have hs2 : k ≠ [star] := by simpa using hs
+        simp [this, hs2]
+    · have hs2 : k = [star] := by simpa using hs
+      simp [hs2]
+  · simp
+
+theorem validParts_toLower (g : Bytes) : validParts (toLower g) = validParts g := by
+  unfold validParts
+  rw [toLower_isEmpty, split_toLower, all_validLabel_toLower]
+  have : (toLower g != [star]) = (g != [star]) := by
+    simp only [bne, toLower_beq_single _ (fun _ => toLowerB_eq_star)]
+  rw [this]
+
+theorem getLast?_of_toLower_dot {k : Bytes} (h : (toLower k).getLast? = some dot) : k.getLast? = some dot := by
+  rw [getLast?_toLower] at h
+  cases hk : k.getLast? with
+  | none => rw [hk] at h; cases h
+  | some c =>
+    rw [hk] at h
+    simp only [Option.map_some, Option.some.injEq] at h
+    rw [toLowerB_eq_dot.mp h]
+
 end Martian.Mitm
